@@ -10,7 +10,6 @@ package main
 import (
 	"bufio"
 	"bytes"
-	"errors"
 	"fmt"
 	"net"
 	"strings"
@@ -20,47 +19,6 @@ import (
 
 	"pgregory.net/rapid"
 )
-
-// ---- scripted connection ----------------------------------------------------
-
-type c20Conn struct {
-	mu        sync.Mutex
-	name      string
-	failAfter int // -1 healthy; k >= 0: the next write accepts k bytes and fails
-	failOnce  bool
-	failed    bool
-	writes    [][]byte
-	closed    bool
-	afterFail int // writes attempted after the first failure
-}
-
-func (c *c20Conn) Read(p []byte) (int, error) { return 0, errors.New("scripted conn: no reads") }
-func (c *c20Conn) Write(p []byte) (int, error) {
-	c.mu.Lock()
-	defer c.mu.Unlock()
-	if c.failed || c.closed {
-		c.afterFail++
-		c.writes = append(c.writes, nil)
-		return 0, errors.New("scripted conn: broken pipe")
-	}
-	if c.failAfter >= 0 {
-		n := c.failAfter
-		if n > len(p) {
-			n = len(p)
-		}
-		c.writes = append(c.writes, append([]byte(nil), p[:n]...))
-		c.failed = true
-		return n, errors.New("scripted conn: connection reset by peer")
-	}
-	c.writes = append(c.writes, append([]byte(nil), p...))
-	return len(p), nil
-}
-func (c *c20Conn) Close() error                       { c.mu.Lock(); c.closed = true; c.mu.Unlock(); return nil }
-func (c *c20Conn) LocalAddr() net.Addr                { return &net.TCPAddr{IP: net.IPv4(127, 0, 0, 2), Port: 40000} }
-func (c *c20Conn) RemoteAddr() net.Addr               { return &net.TCPAddr{IP: net.IPv4(127, 0, 0, 3), Port: 5060} }
-func (c *c20Conn) SetDeadline(t time.Time) error      { return nil }
-func (c *c20Conn) SetReadDeadline(t time.Time) error  { return nil }
-func (c *c20Conn) SetWriteDeadline(t time.Time) error { return nil }
 
 // ---- recording listener -----------------------------------------------------
 
